@@ -27,6 +27,18 @@ func main() {
 	switch os.Args[1] {
 	case "check":
 		os.Exit(cmdCheck(os.Args[2:]))
+	case "symbols":
+		// (re)write baseline/symbols.json — done once at the pinned tree
+		p, err := core.Load("/repo", "", nil)
+		if err != nil {
+			fmt.Println(err)
+			os.Exit(1)
+		}
+		if err := checks.WriteSymbols(p, "/verif"); err != nil {
+			fmt.Println(err)
+			os.Exit(1)
+		}
+		os.Exit(0)
 	case "baseline":
 		os.Exit(cmdBaseline(os.Args[2:]))
 	case "explain":
